@@ -49,6 +49,7 @@ NAV = 2147470000                                   # a mo / po register whose in
 DTAB = list(range(1000000, 1000020))               # indices into the harness's table of remarkable doubles
 WRITABLE = ("opt", "optref", "optvr", "optbr", "masked", "mref", "dopt", "dmasked", "mo")
 D_NOFUNS = {"mod", "band", "bor", "bxor", "bitnot", "mod_eq", "band_eq", "bor_eq", "bxor_eq"}
+CATS = ("cl", "lv", "rv")                          # value category / constness of the right operand of a compound assignment
 VALREF = ("optref", "optcr", "optvr", "mref", "optbr")
 FLAGREF = ("optref", "optcr", "mref", "optbr")
 BITFLAG = ("optbr",)                               # the flag is a proxy for one bit of a caller's bitset
@@ -449,7 +450,7 @@ class Gen:
                 first = self.load(j, self.kind[j], False, 0)
                 if r.random() < 0.5 and self.kind[i] in WRITABLE:
                     f = r.choice(["div_eq", "mod_eq"])
-                    nxt = ev("Compound", f=f, i=i, j=j)
+                    nxt = ev("Compound", f=f, i=i, j=j, cj=r.choice(CATS))
                     self.has[i] = False
                     self.wrote(i)
                 else:
@@ -500,7 +501,7 @@ class Gen:
                 self.has[i] = False if (hi is False or hj is False) else (True if (hi and hj) else None)
                 self.val[i] = None
                 self.wrote(i)
-                return ev("Compound", f=f, i=i, j=j)
+                return ev("Compound", f=f, i=i, j=j, cj=r.choice(CATS))
             if c < 0.78:
                 idx = self.pick_operands(2)
                 if not idx:
@@ -1703,7 +1704,11 @@ def finish(ctx, q, nops):
              "on the underlying doubles. Plus TLC simulation walks and seeded random expression sequences (values up to +-46000, results stored back). "
              "Second part (LiftedExt.tla): TLC enumerates operation x lifted/plain pattern x presence pattern x table values for "
              "xoptional<xcomplex<double>>, xoptional<xoptional<int>>, xoptional<double> and xmasked_value<double> with bit-exact comparison "
-             "(+-0, +-inf, +-NaN, denormal, max), the two-call expressions a+b*c, a+(b-c), a*(b-c), a*(b*c), compound assignments; each case executed once."
+             "(+-0, +-inf, +-NaN, denormal, max), the two-call expressions a+b*c, a+(b-c), a*(b-c), a*(b*c), compound assignments; each case executed once. "
+             "Round 4: the value category / constness of the right operand (const lvalue, non-const lvalue, rvalue) is a parameter of every compound assignment "
+             "of Lifted.tla and of every binary call, comparison and compound assignment of LiftedExt.tla; LiftedExt's CompareF / CallF / CompoundF enumerate "
+             "xoptional<int, FT> operands over the flag types bool, int, unsigned char and int& (xoptional<int&, int&>) with flag values 0, 1, 2, 4 in every pairing "
+             "(presence = truth of the flag)."
              % (nops, "" if q else "/optcr/optvr", "{-1,0,2}" if q else "{-46000,-1,0,2,3}", "" if q else ", -inf, 1/3, 1e308, a denormal, -0.0"),
         assumptions=["the operand type Probe (harness/lifted/probe.hpp) and Lifted.tla's Apply1/2/3 define the same toy algebra",
                      "for double operands the harness records, next to every lifted result, the result of the same operation on the underlying "
